@@ -838,6 +838,102 @@ Proof.
     exists c. split; [reflexivity|]. eapply new_writer_err_not_missing. exact E.
 Qed.
 
+(* ---- MarshalFindResponse / UnmarshalFindResponse for any FindResponse ---- *)
+
+Definition wf_mhresult (x : bytes * option (list presult)) : bool :=
+  match snd x with Some rs => forallb wf_result rs | None => true end.
+Definition canon_mhresult (x : bytes * option (list presult)) : bytes * list presult :=
+  (fst x, match snd x with Some rs => map canon rs | None => [] end).
+
+Lemma dec_enc_mhresult x :
+  wf_mhresult x = true -> dec_mhresult (enc_mhresult (fst x) (snd x)) = Ok (canon_mhresult x).
+Proof.
+  destruct x as [mh [rs|]]; unfold wf_mhresult, canon_mhresult, enc_mhresult, dec_mhresult; cbn [fst snd];
+    cbn [lookup field_eqb field_code N.eqb Pos.eqb dec_bytes bind mcontent]; intro H.
+  - rewrite (map_res_results rs H). reflexivity.
+  - reflexivity.
+Qed.
+
+Theorem marshal_find_response_roundtrip_proved :
+  forall l, forallb wf_mhresult l = true ->
+    dec_findresp (enc_findresp l) = Ok (map canon_mhresult l).
+Proof.
+  intros l H. unfold enc_findresp, dec_findresp. destruct l as [|x l]; [reflexivity|].
+  cbn [is_nil negb opt_field lookup field_eqb field_code N.eqb Pos.eqb].
+  revert H. generalize (x :: l). clear x l. induction l as [|x l IH]; intro H; [reflexivity|].
+  cbn [forallb] in H. apply andb_prop in H as [Hx Hl]. cbn [map map_res].
+  change (fun x0 : bytes * option (list presult) => enc_mhresult (fst x0) (snd x0)) with (fun x0 : bytes * option (list presult) => enc_mhresult (fst x0) (snd x0)).
+  rewrite (dec_enc_mhresult x Hx). cbn [bind]. rewrite (IH Hl). reflexivity.
+Qed.
+
+(* ---- the ResponseWriter wrapper and MatchQueryParam ---- *)
+
+(* used as the handlers use it -- at most one status written -- StatusCode() is the status on
+   the wire *)
+Theorem status_code_is_wire_status_proved :
+  rw_status_after [] = wire_status_after [] /\
+  (forall c, rw_status_after [c] = wire_status_after [c]) /\
+  (forall c calls, forallb (fun x => (x =? 200) || (x =? c)) calls = true ->
+     rw_status_after calls = wire_status_after calls).
+Proof.
+  split; [reflexivity|]. split.
+  - intro c. unfold rw_status_after, wire_status_after. cbn [fold_left filter]. destruct (c =? 200); reflexivity.
+  - intros c calls H. unfold rw_status_after, wire_status_after.
+    assert (G : forall st, (st = 200 \/ st = c) ->
+      fold_left (fun st0 c0 => if c0 =? 200 then st0 else c0) calls st =
+      match filter (fun c0 => negb (c0 =? 200)) calls with [] => st | c0 :: _ => c0 end).
+    { induction calls as [|x r IH]; intros st Hst; [reflexivity|].
+      cbn [forallb] in H. apply andb_prop in H as [Hx Hr]. cbn [fold_left filter].
+      destruct (x =? 200) eqn:E; cbn [negb].
+      - apply IH; assumption.
+      - cbn [orb] in Hx. apply N.eqb_eq in Hx. subst x.
+        rewrite (IH Hr c (or_intror eq_refl)).
+        destruct (filter (fun c0 => negb (c0 =? 200)) r) as [|y t] eqn:F; [reflexivity|].
+        assert (In y (filter (fun c0 => negb (c0 =? 200)) r)) by (rewrite F; left; reflexivity).
+        apply filter_In in H as [Hy Hn]. rewrite forallb_forall in Hr. specialize (Hr y Hy).
+        apply negb_true_iff in Hn. rewrite Hn in Hr. cbn in Hr. apply N.eqb_eq in Hr. congruence. }
+    apply G. left. reflexivity.
+Qed.
+
+Theorem match_query_table_proved :
+  forall labels value,
+    match_query labels value =
+    match labels with
+    | None => (false, false)
+    | Some ls => (true, if existsb (bytes_eqb value) ls then true else false)
+    end /\
+    (forall ls, labels = Some ls -> (snd (match_query labels value) = true <-> In value ls)).
+Proof.
+  intros labels value. split.
+  - destruct labels as [ls|]; cbn; [destruct (existsb _ ls); reflexivity|reflexivity].
+  - intros ls ->. cbn. rewrite existsb_exists. split.
+    + intros [x [Hx E]]. apply bytes_eqb_eq in E. subst. exact Hx.
+    + intro H. exists value. split; [exact H|apply bytes_eqb_eq; reflexivity].
+Qed.
+
+(* ---- client histories ---- *)
+
+(* a healthy Find of the repaired client returns what the server holds for that multihash
+   wherever it stands in a history of calls, whatever the other calls met (cut bodies,
+   5xx, not-found, other multihashes) *)
+Theorem healthy_find_in_any_history_proved :
+  forall (before after : list (list served)) prefer kt m hexv cidv rs,
+    plain_key kt = true -> mh_valid m = true -> forallb wf_result rs = true ->
+    nth_error (hist_results (before ++ [(client_request prefer kt m hexv cidv, rs, HNoFault)] :: after))
+              (List.length before) =
+    Some (Ok (if is_nil rs then [] else [(m, map canon rs)])).
+Proof.
+  intros before after prefer kt m hexv cidv rs Hk Hm Hwf.
+  unfold hist_results. rewrite map_app. rewrite nth_error_app2; rewrite map_length; [|apply Nat.le_refl].
+  rewrite Nat.sub_diag. cbn [map nth_error call_read served_read].
+  rewrite (find_client_end_to_end_proved prefer kt m hexv cidv rs Hk Hm Hwf). cbn [bind].
+  rewrite app_nil_r. reflexivity.
+Qed.
+
+(* the results of a history are those of its calls taken one by one *)
+Lemma hist_results_app h1 h2 : hist_results (h1 ++ h2) = (hist_results h1 ++ hist_results h2)%list.
+Proof. apply map_app. Qed.
+
 (* ================================================================ *)
 (* 9. API errors                                                     *)
 
